@@ -8,6 +8,7 @@ exit 0 = held on everything explored; 1 = VIOLATION line(s) printed; 2 = inconcl
 (build failure, timeout, worker death that cannot be attributed to the code under test).
 """
 import array
+import atexit
 import hashlib
 import json
 import re
@@ -51,7 +52,10 @@ def build(prop, plan, variant="", race=False, fuzz=False):
     pkg = prop.lower()
     os.makedirs(os.path.join(BUILD, "bin"), exist_ok=True)
     race = race or plan.get("race")
-    out = os.path.join(BUILD, "bin", pkg + ("." + variant if variant else "") + (".race" if race else "") + (".fuzz" if fuzz else "") + ".test")
+    # one binary per invocation: a second run of the same check at the same time (another tier, another seed) neither
+    # replaces a binary that is being started nor reads this run's files
+    out = os.path.join(BUILD, "bin", pkg + ("." + variant if variant else "") + (".race" if race else "") + (".fuzz" if fuzz else "") + ".%d.test" % os.getpid())
+    atexit.register(lambda p=out: os.path.exists(p) and os.remove(p))
     cmd = ["go", "test", "-c", "-o", out, "-tags", "verif", "-vet=off"]
     if fuzz:
         cmd += ["-fuzz", "Fuzz"]  # coverage instrumentation for the native fuzzer
@@ -119,9 +123,19 @@ def main():
             build_s += dt
         return binaries[key]
 
-    outdir = os.path.join(BUILD, "out", prop)
+    outdir = os.path.join(BUILD, "out", "%s.%s.%d" % (prop, mode, os.getpid()))
     shutil.rmtree(outdir, ignore_errors=True)
     os.makedirs(os.path.join(outdir, "work"), exist_ok=True)
+    atexit.register(shutil.rmtree, outdir, True)
+    # what an interrupted earlier run left behind (older than a day)
+    for base in (os.path.join(BUILD, "out"), os.path.join(BUILD, "bin")):
+        try:
+            for name in os.listdir(base):
+                fp = os.path.join(base, name)
+                if time.time() - os.path.getmtime(fp) > 86400:
+                    shutil.rmtree(fp, ignore_errors=True) if os.path.isdir(fp) else os.remove(fp)
+        except OSError:
+            pass
     kf_path = os.path.join(VERIF, "known_findings.json")
 
     if mode == "replay":
